@@ -11,6 +11,7 @@ From Coq Require Import List ZArith Reals.
 Require Import Clarabel.Base.Ops Clarabel.Csc.Model Clarabel.Csc.Spec.
 Require Import Clarabel.Presolve.Model Clarabel.Presolve.Spec Clarabel.Presolve.Lemmas.
 Require Import Clarabel.Presolve.LemmasCones Clarabel.Presolve.LemmasBuild Clarabel.Presolve.LemmasUnique.
+Require Import Clarabel.Presolve.LemmasGlobal Clarabel.Presolve.SemSpec Clarabel.Presolve.LemmasSem.
 
 Theorem C09_keep_map : forall T (O : Ops T), stmt_keep_map O.
 Proof. exact @keep_map_ok. Qed.
@@ -40,3 +41,24 @@ Theorem C09_dual_neutral : forall T (O : Ops T), stmt_dual_neutral O.
 Proof. exact @dual_neutral_ok. Qed.
 Theorem C09_bound_captured_at_build : forall T, @stmt_bound_captured T.
 Proof. exact @bound_captured_ok. Qed.
+
+(** round 3: the process-global bound with several live solvers; the packaged reverse map;
+    the semantic reading of cone collapsing (Presolve/SemSpec.v) *)
+Theorem C09_global_cell : forall T (O : Ops T), stmt_gcell O.
+Proof. exact @gcell_ok. Qed.
+Theorem C09_global_solver_frozen : forall T (O : Ops T), stmt_gfrozen O.
+Proof. exact @gfrozen_ok. Qed.
+Theorem C09_global_solve_uses_build_bound : forall T (O : Ops T), stmt_gsolve O.
+Proof. exact @gsolve_ok. Qed.
+Theorem C09_global_update_b : forall T (O : Ops T), stmt_gupdate O.
+Proof. exact @gupdate_ok. Qed.
+Theorem C09_reverse : forall T (O : Ops T), stmt_reverse O.
+Proof. exact @reverse_ok. Qed.
+Theorem C09_collapseD_erase : stmt_collapseD_erase.
+Proof. exact collapseD_erase_ok. Qed.
+Theorem C09_collapse_sem : stmt_collapse_sem.
+Proof. exact collapse_sem_ok. Qed.
+Theorem C09_collapse_keeps_others : stmt_collapse_keeps_others.
+Proof. exact collapse_keeps_others_ok. Qed.
+Theorem C09_zero_not_absorbed : stmt_zero_not_absorbed.
+Proof. exact zero_not_absorbed_ok. Qed.
